@@ -93,6 +93,15 @@ def walk_manifest(parsed, problems, tag):
     return comps
 
 
+# VERSION file text -> (sequence number, version string or None) the root envelope must carry
+VERSION_FILES = {
+    "file:sequence-number-only": ("APP_ROOT_SEQ_NUM = 7\n", 7, None),
+    "file:empty": ("", 1, None),
+    "file:zephyr-style": ("VERSION_MAJOR = 1\nVERSION_MINOR = 2\nPATCHLEVEL = 3\nVERSION_TWEAK = 4\nEXTRAVERSION = rc1\n", 0x01020304, "1.2.3-rc.1"),
+    "file:no-tweak-no-extra": ("VERSION_MAJOR = 2\nVERSION_MINOR = 0\nPATCHLEVEL = 9\n", 0x02000900, "2.0.9"),
+    "file:explicit": ("APP_ROOT_SEQ_NUM = 300\nAPP_ROOT_VERSION = 3.1.4-beta\nVERSION_MAJOR = 9\nVERSION_MINOR = 9\nPATCHLEVEL = 9\n", 300, "3.1.4-beta"),
+}
+
 _ART_DIR = None
 
 
@@ -104,7 +113,8 @@ class same_build_dir:
         global _ART_DIR
         import atexit, shutil
         if _ART_DIR is None:
-            _ART_DIR = tempfile.mkdtemp(prefix="verif_c19_")
+            # a build directory whose name holds characters that HTML, YAML and shells treat specially
+            _ART_DIR = tempfile.mkdtemp(prefix="verif_c19 R&D <o'brien> \"q\"_")
             atexit.register(lambda: shutil.rmtree(_ART_DIR, ignore_errors=True))
         for f in os.listdir(_ART_DIR):
             fp = os.path.join(_ART_DIR, f)
@@ -174,6 +184,12 @@ def case_root(drv, seed, index, subset, names, varmode, res):
             cfg["APP_ROOT_SEQ_NUM"] = "77"
             cfg["APP_ROOT_VERSION"] = "2.0"
             seq_obj, ver_obj = 77, "2.0"
+        elif varmode.startswith("file:"):
+            # the variables come from a VERSION file through ncs/build.py, as in a real build
+            text_v, seq_obj, ver_obj = VERSION_FILES[varmode]
+            vf = os.path.join(d, "VERSION")
+            open(vf, "w").write(text_v)
+            cfg.update(dict(ncs_build.read_version_file(vf)))
         tpl = str(common.REPO / "ncs" / "root_with_nordic_top_envelope.yaml.jinja2")
         try:
             text = ncs_build.render_template(tpl, cfg)
@@ -287,7 +303,7 @@ def run(tier: str, seed: int) -> int:
     index = 0
     for rep in range(reps):
         for subset in subsets:
-            for varmode in ("none", "default", "app"):
+            for varmode in ("none", "default", "app") + ((tuple(VERSION_FILES)[(len(subset) + rep) % len(VERSION_FILES)],) if tier == "quick" else tuple(VERSION_FILES)):
                 name_sets = [(None, "plain"), ((PLAIN_NAMES[1], PLAIN_NAMES[2], PLAIN_NAMES[1]), "plain")]
                 yn = rng.sample(YAML_NAMES, 3)
                 name_sets.append(((yn[0], yn[1], yn[2]), "yaml-significant"))
